@@ -1659,6 +1659,30 @@ fn run_ops_inner(settings: &SettingsDesc, ops: &[Op], faults_mode: bool, attribu
                 if let CallResult::Ok(Some(id)) = &res {
                     s.promise(id, step);
                 }
+                // ----- after a fault: the id a successful add_type_with_name returns answers -----
+                // (Only this much can be demanded of the documented "weird state": the
+                // type the call itself converted, or found by name, exists. References
+                // into a failed batch may lead nowhere, so `$ref` schemas and the
+                // children of the returned type are not looked at.)
+                if !s.clean && !s.tainted {
+                    if let (Op::AddType { schema, .. }, CallResult::Ok(Some(id))) = (&src, &res) {
+                        if schema.get("$ref").is_none() {
+                            let ts = &s.ts;
+                            let answers = catch_unwind(AssertUnwindSafe(|| ts.get_type(id).is_ok())).unwrap_or(false);
+                            if answers {
+                                s.out.probe("post_fault.add_type_id_answers");
+                            } else {
+                                s.violate(
+                                    "I2",
+                                    format!("returned-id-unresolvable-after-fault:{opkind}"),
+                                    step,
+                                    format!("{opkind} returned Ok({}) after an earlier failed call, but get_type rejects that id", id_num(id)),
+                                    "an id returned by a successful call denotes a type",
+                                );
+                            }
+                        }
+                    }
+                }
                 // ----- the id add_type_with_name returns is the type of THAT schema -----
                 // (the hint only names the result when the schema converts to a named
                 // type; a list or a scalar never comes back as some struct that happens
